@@ -153,7 +153,7 @@ open Nima.Frag
 and `Model/Rebuild.lean` (`rebuild` of the same classes, string level and piece level) model the parse
 side and the render side for files made of attribute sets with plain single-segment names, lists,
 parenthesised expressions `( e )`, function applications `f x` / `f x y`, `with e; body`,
-`assert e; body`, selects `e.a.b` (no `or` default) and leaf values, nested to any depth, with
+`assert e; body`, selects `e.a.b` / `e.a or d` and leaf values, nested to any depth, with
 arbitrary whitespace and line / one-line block comments in every gap (inside parentheses and between
 function and argument too; the three gaps of a `with` / `assert` itself — after the keyword and around
 its `;` — and the gaps around the `.` of a select hold whitespace only: `Cst.wf`). The statements below are about EVERY such tree
@@ -290,6 +290,20 @@ example : selectSample.wf = true ∧ selectSample.noLeadingWs = true := by decid
 example : selectSample.codeTokens =
     ["f", "(", "g", "x", ")", ".", "a", ".", "b", ".", "\"c d\"", "{", "}", ".", "y"].map String.toList := by decide
 example : selectSample.roundtrip = .ok "f (g x).a.b\n  .\"c d\" { }.y".toList := by decide
+
+/-- `[ a.b or c (f x).y⏎    or { } ]`: selects with defaults as list elements, `or` on its own line -/
+def selectOrSample : File :=
+  { items := .elem []
+      (.list (.elem " ".toList (.selOr (.leaf .ident "a".toList) [] [] [] ["b".toList] [] " ".toList " ".toList
+            (.leaf .ident "c".toList))
+          (.elem " ".toList (.selOr (.paren (.elem [] (.app (.leaf .ident "f".toList) [] " ".toList (.leaf .ident "x".toList)) .nil) [])
+            [] [] [] ["y".toList] [] "\n    ".toList " ".toList (.set false [] .nil " ".toList)) .nil)) " ".toList) .nil,
+    endGap := [] }
+
+example : selectOrSample.flatten = "[ a.b or c (f x).y\n    or { } ]".toList := by decide
+example : selectOrSample.wf = true ∧ selectOrSample.noLeadingWs = true := by decide
+example : selectOrSample.codeTokens =
+    ["[", "a", ".", "b", "or", "c", "(", "f", "x", ")", ".", "y", "or", "{", "}", "]"].map String.toList := by decide
 
 end Fragment
 
